@@ -598,6 +598,12 @@ class Interp:
                 v = r[1].constants[r[2]]
                 if isinstance(v, ast.Constant):
                     return [(C(v.value), env, st)]
+                from .src import try_fold
+                ok, val = try_fold(v, {}, self.repo, r[1])
+                if ok and isinstance(val, (tuple, list, frozenset, set)) and all(isinstance(x, (str, int, type(None))) for x in val):
+                    return [(Tup([C(x) for x in val]), env, st)]
+                if ok and isinstance(val, (str, int, bool, type(None))):
+                    return [(C(val), env, st)]
             return [(UNK, env, st)]
         if isinstance(e, ast.Tuple):
             return self.seq_eval(fi, e.elts, env, st, stack, lambda vals: Tup(vals))
@@ -899,7 +905,14 @@ class Interp:
         return out
 
     def takes_tokens(self, argvals, kwvals) -> bool:
-        return any(isinstance(v, Ref) for v in list(argvals) + list(kwvals.values()))
+        """Does the call receive the token iterator, a token, or something derived from a token?"""
+        def tokish(v):
+            if isinstance(v, (Ref, Tok, TAttr, Sym)):
+                return True
+            if isinstance(v, Tup):
+                return any(tokish(x) for x in v.items)
+            return False
+        return any(tokish(v) for v in list(argvals) + list(kwvals.values()))
 
     # -- driving ---------------------------------------------------------------------------
     def run_entry(self, fi: FuncInfo) -> Dict[tuple, set]:
